@@ -879,3 +879,418 @@ def r03_5(ctx):
         ctx.check(ok, R, sk, b.loc(s['sp']), '%s ignores alpha only under alpha == 255' % v,
                   'the %s shader is built without the global alpha and not under an alpha == 255 test: global alpha is dropped for this source kind' % v)
     ctx.floor(R, 'ShaderStorage arms', n, 15)
+
+
+# ====================================================================== C05
+def top_clip_field(leaves_or_terms, fld):
+    """some term reads field `fld` of the Clip obtained from clip_stack.last()"""
+    for x in leaves_or_terms:
+        if x[0] == 'field' and x[2] == fld and (x[3] or '').endswith('draw_target::Clip'):
+            r, nm = field_path(x)
+            if is_call(r, '::last'):
+                return True
+    return False
+
+
+def pushes_on(ctx, b, field):
+    """[(bb, call term)] of Vec::push / Vec::pop whose receiver is self.<field>"""
+    out = []
+    for bi, d, ct in calls_in(ctx, b):
+        if d and (d.endswith('Vec::<T, A>::push') or d.endswith('Vec::<T, A>::pop')) and is_self_field(strip_all(ct[2][0]), field):
+            out.append((bi, d.split('::')[-1], ct))
+    return out
+
+
+def r05_1(ctx):
+    """push_clip_rect carries both components of the previous top"""
+    R = 'R05.1'
+    b = ctx.body(DT + 'push_clip_rect', R)
+    an = ctx.an(b)
+    key = 'draw_target::DrawTarget::push_clip_rect'
+    ps = [p for p in pushes_on(ctx, b, 'clip_stack') if p[1] == 'push']
+    if not ctx.check(len(ps) == 1, R, key + '|one push', b.loc(), 'one push onto clip_stack', 'expected one push onto clip_stack, found %d' % len(ps)):
+        return
+    bi, _, ct = ps[0]
+    clip = ct[2][1]
+    D = Deps(an)
+    lv = D.closure(('field', clip, 'rect', 'raqote::draw_target::Clip', None))
+    ctx.check(('param', 2) in lv, R, key + '|rect uses argument', call_line(b, bi), 'new rect depends on the argument', 'the pushed clip rectangle does not depend on the rect argument')
+    ctx.check(top_clip_field(D.visited, 'rect'), R, key + '|rect uses previous rect', call_line(b, bi), 'new rect depends on the previous top\'s rect',
+              'the pushed clip rectangle does not depend on the rectangle of the clip underneath: nested clip rectangles are not intersected')
+    D = Deps(an)
+    D.closure(('field', clip, 'mask', 'raqote::draw_target::Clip', None))
+    ctx.check(top_clip_field(D.visited, 'mask'), R, key + '|mask carried', call_line(b, bi), 'new entry carries the previous top\'s mask',
+              'the pushed clip entry\'s mask never derives from the mask of the clip underneath (it is always None): a rectangle pushed over a path clip discards the path clip')
+
+
+def r05_2(ctx):
+    """push_clip carries both components"""
+    R = 'R05.2'
+    b = ctx.body(DT + 'push_clip', R)
+    an = ctx.an(b)
+    key = 'draw_target::DrawTarget::push_clip'
+    ps = [p for p in pushes_on(ctx, b, 'clip_stack') if p[1] == 'push']
+    if not ctx.check(len(ps) == 1, R, key + '|one push', b.loc(), 'one push onto clip_stack', 'expected one push onto clip_stack, found %d' % len(ps)):
+        return
+    bi, _, ct = ps[0]
+    clip = strip_all(ct[2][1])
+    f = dict(clip[4]) if clip[0] == 'agg' else {}
+    rect = f.get('rect')
+    ctx.check(rect is not None and is_call(rect, DT + 'clip_bounds'), R, key + '|rect', call_line(b, bi), 'rect = clip_bounds()', 'the pushed clip rect is %s, expected the current clip bounds' % (fmt(b, rect) if rect else '?'))
+    mask = f.get('mask')
+    D = Deps(an)
+    lv = D.closure(mask) if mask else set()
+    has_raster = any(is_call(x, 'Rasterizer::rasterize') for x in D.visited) if mask else False
+    ctx.check(has_raster, R, key + '|mask from path', call_line(b, bi), 'mask derives from rasterising the path', 'the pushed mask does not derive from Rasterizer::rasterize')
+    ctx.check(top_clip_field(D.visited, 'mask') and any(is_call(x, 'sw_composite::muldiv255') for x in D.visited), R, key + '|mask combined', call_line(b, bi),
+              'mask is multiplied with the previous top\'s mask', 'the pushed mask is not combined (muldiv255) with the mask of the clip underneath: nested path clips are not intersected')
+    # the combining loop covers width*height entries
+    W, H = Poly.leaf(('field', ('deref', ('param', 1)), 'width', 'raqote::draw_target::DrawTarget', None)), Poly.leaf(('field', ('deref', ('param', 1)), 'height', 'raqote::draw_target::DrawTarget', None))
+    okl = False
+    for x in D.visited:
+        if x[0] == 'agg' and x[2] and x[2].endswith('ops::Range'):
+            f2 = dict(x[4])
+            if const_val(f2['start']) == 0 and poly(f2['end']) == W * H:
+                okl = True
+    ctx.check(okl, R, key + '|combine loop bound', b.loc(), 'combine loop runs over 0..width*height', 'the mask-combining loop does not run over 0..width*height')
+    # R05.5 writer side: full-surface, origin 0 blitter
+    news = [ct2 for bi2, d, ct2 in calls_in(ctx, b) if d == 'raqote::blitter::MaskSuperBlitter::new']
+    ok = len(news) == 1 and const_val(news[0][2][0]) == 0 and const_val(news[0][2][1]) == 0 and is_self_field(news[0][2][2], 'width') and is_self_field(news[0][2][3], 'height')
+    ctx.check(ok, 'R05.5', key + '|full-surface mask', b.loc(), 'clip mask = MaskSuperBlitter::new(0, 0, width, height)', 'the clip mask is not rasterised into a full-surface, origin-0 buffer of stride width (readers index it absolutely)')
+
+
+def r05_3(ctx):
+    """stack discipline: who mutates clip_stack / layer_stack"""
+    R = 'R05.3'
+    expect = {
+        'clip_stack': {DT + 'push_clip_rect': ['push'], DT + 'push_clip': ['push'], DT + 'pop_clip': ['pop']},
+        'layer_stack': {DT + 'push_layer_with_blend': ['push'], DT + 'pop_layer': ['pop'], DT + 'composite': ['last_mut']},
+    }
+    for fld, table in expect.items():
+        found = {}
+        for q, b in ctx.F.bodies.items():
+            an = ctx.an(b)
+            uses = []
+            def in_field(t):
+                r, nm = field_path(t)
+                return r == ('param', 1) and nm[:1] == [fld] and any(x[0] == 'field' and x[2] == fld and x[3] == 'raqote::draw_target::DrawTarget' for x in subterms(t))
+            for bi, k2, s in b.statements():
+                if s['k'] == 'assign' and s['rv']['k'] in ('ref', 'rawptr') and s['rv']['mut']:
+                    t = an.place_term(bi, k2, s['rv']['p'])
+                    if in_field(t):
+                        uses.append((bi, k2))
+            for addr, val, pt, kind in an.stores:
+                if kind == 'assign' and in_field(addr):
+                    uses.append(pt)
+            if not uses:
+                continue
+            ops = []
+            for bi, d, ct in calls_in(ctx, b):
+                if d and ct[2] and (b.blocks[bi]['t'].get('arg_tys') or [''])[0].startswith('&mut'):
+                    a0 = strip_all(ct[2][0])
+                    # the receiver is the stack itself, or its slice view (deref_mut is seen through)
+                    if in_field(a0) and field_path(a0)[1] == [fld]:
+                        name = d.split('::')[-1]
+                        if name not in ('deref_mut',):
+                            ops.append(name)
+            found[q] = sorted(set(ops))
+        for q, ops in sorted(found.items()):
+            want = table.get(q)
+            ctx.check(want is not None and ops == sorted(want), R, '%s|mutates %s' % (short(q), fld), ctx.F.body(q).loc(), '%s: %s' % (fld, ops),
+                      '%s mutates %s (%s) but the stack discipline allows only %s' % (short(q), fld, ops or 'direct store / &mut', {short(a): o for a, o in table.items()}))
+        ctx.floor(R, 'legitimate mutators of %s (positive control)' % fld, len(set(found) & set(table)), len(table))
+        for q, want in table.items():
+            if want in (['push'], ['pop']):
+                b = ctx.F.body(q)
+                if b is None:
+                    continue
+                n = len([p for p in pushes_on(ctx, b, fld) if p[1] == want[0]])
+                ctx.check(n == 1, R, '%s|one %s on %s' % (short(q), want[0], fld), b.loc(), 'exactly one %s' % want[0], '%s performs %d %s on %s, expected exactly one' % (short(q), n, want[0], fld))
+
+
+def r05_4(ctx):
+    """composite hands the clip stack to choose_blitter"""
+    R = 'R05.4'
+    b = ctx.body(DT + 'composite', R)
+    cs = [(bi, ct) for bi, d, ct in calls_in(ctx, b) if d == DT + 'choose_blitter']
+    ok = len(cs) == 1
+    if ok:
+        a = cs[0][1][2]
+        ok = is_self_field(strip_all(a[1]), 'clip_stack') and a[0] == ('param', P_MASK) and a[4] == ('param', P_BLEND) and is_self_field(a[7], 'width')
+    ctx.check(ok, R, 'draw_target::DrawTarget::composite|choose_blitter args', b.loc(), 'choose_blitter(mask, &self.clip_stack, .., blend, .., self.width)',
+              'composite does not pass (mask, &self.clip_stack, blend, self.width) to choose_blitter: the top clip mask / its stride would not be honoured')
+
+
+def rect_size_sites(ctx):
+    """allocation / buffer-size computations fed by the size of a rectangle that may be inverted:
+    [(body, bb, call term, rect term)]"""
+    out = []
+    for q, b in ctx.F.bodies.items():
+        if '::draw_text' in q or '::draw_glyphs' in q:
+            continue
+        an = ctx.an(b)
+        for bi, d, ct in calls_in(ctx, b):
+            if not d or not (d.endswith('vec::from_elem') or d.endswith('with_capacity') or d.endswith('MaskSuperBlitter::new') or d.endswith('MaskBlitter::new')):
+                continue
+            sizes = [x for a in ct[2] for x in subterms(a) if is_call(x, 'Box2D::<T, U>::size')]
+            for sz in sizes:
+                rect = strip_all(sz[2][0])
+                D = Deps(an)
+                D.closure(rect)
+                risky = any(is_call(x, DT + 'clip_bounds', 'intersection_unchecked', 'Rasterizer::get_bounds') for x in D.visited)
+                if risky:
+                    out.append((b, bi, ct, rect, sz))
+    return out
+
+
+def r05_6(ctx):
+    """a possibly inverted rectangle is never used as a size without an emptiness test or clamp"""
+    R = 'R05.6'
+    sites = rect_size_sites(ctx)
+    seen = set()
+    n = 0
+    for b, bi, ct, rect, sz in sites:
+        key = '%s|size of %s' % (short(b.q), fmt(b, rect)[:40])
+        if (b.q, bi) in seen:
+            continue
+        seen.add((b.q, bi))
+        n += 1
+        gs = normalized_guards(ctx, b, bi)
+        ok = False
+        for op, a, b2, si in gs:
+            if op == '!true' and is_call(a, 'is_empty') and strip_all(a[2][0]) == rect:
+                ok = True
+        # or: both extents tested > 0
+        pos = set()
+        for op, a, b2, si in gs:
+            if op == 'Gt' and const_val(b2) == 0:
+                a2 = strip_casts(a)
+                if a2[0] == 'field' and a2[2] in ('width', 'height') and is_call(a2[1], 'size') and strip_all(a2[1][2][0]) == rect:
+                    pos.add(a2[2])
+        if pos == {'width', 'height'}:
+            ok = True
+        # or: every use of the size in this call is clamped with max(0)
+        if not ok:
+            uses = [x for a in ct[2] for x in subterms(a) if x[0] == 'field' and x[2] in ('width', 'height') and is_call(x[1], 'size') and strip_all(x[1][2][0]) == rect]
+            clamped = [x for a in ct[2] for x in subterms(a) if is_call(x, '::max') and const_val(x[2][1]) == 0 and strip_casts(x[2][0]) in uses]
+            if uses and len(set(strip_casts(c[2][0]) for c in clamped)) == len(set(uses)):
+                # each distinct extent read appears under a max(0); make sure it does not also appear bare
+                bare = False
+                for a in ct[2]:
+                    cnt_all = sum(1 for x in subterms(a) if x in uses)
+                    cnt_clamped = sum(1 for x in subterms(a) if is_call(x, '::max') and const_val(x[2][1]) == 0 and strip_casts(x[2][0]) in uses)
+                    if cnt_all > cnt_clamped:
+                        bare = True
+                ok = not bare
+        ctx.check(ok, R, key, call_line(b, bi), 'size use guarded by emptiness test / clamp',
+                  '%s sizes a buffer from %s.size(), a rectangle that can be inverted (clip_bounds()/intersection_unchecked give max < min for an empty intersection), without an is_empty()/`> 0` guard or max(0) clamp: a negative extent becomes a huge usize' % (short(b.q), fmt(b, rect)))
+    ctx.floor(R, 'buffer sizes computed from clip/bounds rectangles', n, 3)
+
+
+# ====================================================================== C06
+def layer_empty_guard(ctx, b, bi):
+    for op, a, b2, si in normalized_guards(ctx, b, bi):
+        if op == 'true' and is_call(a, 'Vec::<T, A>::is_empty') and is_self_field(strip_all(a[2][0]), 'layer_stack'):
+            return True
+    for scr, adt, v, sb in variant_guards(ctx, b, bi):
+        if v == 'None' and (is_call(scr, '::last_mut') or is_call(scr, '::last')):
+            D = [x for x in subterms(scr) if x[0] == 'field' and x[2] == 'layer_stack']
+            if D:
+                return True
+    return False
+
+
+def r06_1(ctx):
+    """every mutable access to the base surface is layer-aware"""
+    R = 'R06.1'
+    exempt = {
+        DT + 'composite_surface': 'copy/blend_surface ignore layers by contract (C15)',
+        DT + 'get_data_mut': 'raw accessor',
+        DT + 'get_data_u8_mut': 'raw accessor',
+    }
+    n = 0
+    for q, b in sorted(ctx.F.bodies.items()):
+        an = ctx.an(b)
+        for bi, k2, s in b.statements():
+            if s['k'] != 'assign' or s['rv']['k'] not in ('ref', 'rawptr') or not s['rv']['mut']:
+                continue
+            t = an.place_term(bi, k2, s['rv']['p'])
+            if not any(x[0] == 'field' and x[2] == 'buf' and x[3] == 'raqote::draw_target::DrawTarget' for x in subterms(t)):
+                continue
+            if an.cfg.reach and bi not in an.cfg.reach:
+                continue
+            n += 1
+            key = '%s|&mut self.buf' % short(q)
+            if q in exempt:
+                ctx.ok(R, key, b.loc(s['sp']), exempt[q])
+                continue
+            ok = layer_empty_guard(ctx, b, bi)
+            ctx.check(ok, R, key, b.loc(s['sp']), 'base surface written only when no layer is open',
+                      '%s writes the base surface without testing layer_stack: while a layer is open the drawing must go to the innermost layer' % short(q))
+    ctx.floor(R, 'sites taking &mut self.buf', n, 4)
+
+
+def r06_2(ctx):
+    """push_layer stores what it was given"""
+    R = 'R06.2'
+    b = ctx.body(DT + 'push_layer_with_blend', R)
+    an = ctx.an(b)
+    key = 'draw_target::DrawTarget::push_layer_with_blend'
+    ps = [p for p in pushes_on(ctx, b, 'layer_stack') if p[1] == 'push']
+    if not ctx.check(len(ps) == 1, R, key + '|one push', b.loc(), 'one push onto layer_stack', 'expected one push, found %d' % len(ps)):
+        return
+    lay = strip_all(ps[0][2][2][1])
+    f = dict(lay[4]) if lay[0] == 'agg' else {}
+    ctx.check(f.get('opacity') == ('param', 2), R, key + '|opacity', b.loc(), 'opacity stored', 'Layer.opacity is %s, not the opacity argument' % fmt(b, f.get('opacity', ('unknown', '?'))))
+    ctx.check(f.get('blend') == ('param', 3), R, key + '|blend', b.loc(), 'blend stored', 'Layer.blend is %s, not the blend argument' % fmt(b, f.get('blend', ('unknown', '?'))))
+    rect = f.get('rect')
+    ctx.check(rect is not None and is_call(rect, DT + 'clip_bounds'), R, key + '|rect', b.loc(), 'rect = clip_bounds()', 'Layer.rect is not the current clip bounds')
+    buf = f.get('buf')
+    ok = buf is not None and is_call(buf, 'vec::from_elem') and const_val(buf[2][0]) == 0
+    if ok:
+        szs = [x for x in subterms(buf[2][1]) if is_call(x, 'Box2D::<T, U>::size')]
+        ok = bool(szs) and all(strip_all(x[2][0]) == rect for x in szs)
+        dims = set(x[2] for x in subterms(buf[2][1]) if x[0] == 'field' and x[2] in ('width', 'height'))
+        ok = ok and dims == {'width', 'height'}
+    ctx.check(ok, R, key + '|buf', b.loc(), 'buf = zero-filled, sized from rect', 'Layer.buf is not a zero-filled vector sized from width and height of the layer rect')
+    b2 = ctx.body(DT + 'push_layer', R)
+    cs = [ct for bi, d, ct in calls_in(ctx, b2) if d == DT + 'push_layer_with_blend']
+    ok = len(cs) == 1 and cs[0][2][1] == ('param', 2) and cs[0][2][2][0] == 'agg' and cs[0][2][2][3] == 'SrcOver'
+    ctx.check(ok, R, 'draw_target::DrawTarget::push_layer|delegates', b2.loc(), 'push_layer(o) = push_layer_with_blend(o, SrcOver)', 'push_layer does not delegate as push_layer_with_blend(opacity, SrcOver)')
+
+
+def r06_3(ctx):
+    """pop_layer composites the popped layer once"""
+    R = 'R06.3'
+    b = ctx.body(DT + 'pop_layer', R)
+    an = ctx.an(b)
+    key = 'draw_target::DrawTarget::pop_layer'
+    pops = [p for p in pushes_on(ctx, b, 'layer_stack') if p[1] == 'pop']
+    comps = [(bi, ct) for bi, d, ct in calls_in(ctx, b) if d == DT + 'composite']
+    if not ctx.check(len(pops) == 1 and len(comps) == 1, R, key + '|one pop, one composite', b.loc(), 'one pop and one composite', 'pop_layer performs %d pops and %d composites, expected one each' % (len(pops), len(comps))):
+        return
+    pbi = pops[0][0]
+    cbi, ct = comps[0]
+    ctx.check(an.cfg.dominates(pbi, cbi) and pbi != cbi, R, key + '|pop before composite', call_line(b, cbi), 'the layer is popped before it is composited (destination = parent)', 'the layer is composited before it is popped: it would be drawn onto itself')
+    layer = None
+    for x in subterms(ct):
+        if is_call(x, 'Option::<T>::unwrap') and is_call(x[2][0], 'Vec::<T, A>::pop'):
+            layer = x
+    if not ctx.check(layer is not None, R, key + '|layer value', b.loc(), 'popped layer reaches composite', 'the composite arguments do not use the popped layer'):
+        return
+    def lf(t, *names):
+        t = strip_all(t)
+        r, nm = field_path(t)
+        return r == layer and nm == list(names)
+    a = ct[2]
+    src = shared.resolve_mem(an, a[1])
+    ok_img = src[0] == 'agg' and src[3] == 'Image'
+    if ok_img:
+        f = dict(src[4])
+        img = strip_all(f['0'])
+        fi = dict(img[4]) if img[0] == 'agg' else {}
+        def size_of_layer(t, dim):
+            t = strip_all(t)
+            return t[0] == 'field' and t[2] == dim and is_call(t[1], 'Box2D::<T, U>::size') and lf(t[1][2][0], 'rect')
+        ctx.check(size_of_layer(fi.get('width', ('unknown',)), 'width') and size_of_layer(fi.get('height', ('unknown',)), 'height'), R, key + '|image size', call_line(b, cbi), 'image size = layer.rect.size()', 'the layer image is not sized (layer.rect.size().width, .height)')
+        ctx.check(lf(fi.get('data', ('unknown',)), 'buf'), R, key + '|image data', call_line(b, cbi), 'image data = layer.buf', 'the layer image does not read layer.buf')
+        ctx.check(f['1'][0] == 'agg' and f['1'][3] == 'Pad' and f['2'][0] == 'agg' and f['2'][3] == 'Nearest', R, key + '|image mode', call_line(b, cbi), 'Pad / Nearest', 'the layer image is not sampled Pad/Nearest')
+        tr = strip_all(f['3'])
+        okt = is_call(tr, 'Transform2D::<T, Src, Dst>::translation') and len(tr[2]) == 2
+        if okt:
+            def negmin(t, ax):
+                t = strip_casts(t, ('IntToFloat', 'IntToInt', 'FloatToFloat'))
+                return t[0] == 'un' and t[1] == 'Neg' and lf(t[2], 'rect', 'min', ax)
+            okt = negmin(tr[2][0], 'x') and negmin(tr[2][1], 'y')
+        ctx.check(okt, R, key + '|image transform', call_line(b, cbi), 'source transform = translation(-rect.min.x, -rect.min.y)', 'the layer image is placed with %s, expected translation(-layer.rect.min.x, -layer.rect.min.y)' % fmt(b, tr))
+    else:
+        ctx.fail(R, key + '|image source', call_line(b, cbi), 'the composite source is %s, expected Source::Image of the layer' % fmt(b, src))
+    # mask = Some(opacity bytes), opacity from layer.opacity
+    m = strip_all(a[2])
+    okm = m[0] == 'agg' and m[3] == 'Some'
+    if okm:
+        mv = shared.resolve_mem(an, m[4][0][1])
+        okm = is_call(mv, 'vec::from_elem')
+        if okm:
+            byte = strip_casts(mv[2][0], ('IntToInt',))
+            okm = byte[0] == 'cast' and byte[1] == 'FloatToInt' and any(lf(x, 'opacity') for x in subterms(byte))
+            W, H = Poly.leaf(('field', ('deref', ('param', 1)), 'width', 'raqote::draw_target::DrawTarget', None)), Poly.leaf(('field', ('deref', ('param', 1)), 'height', 'raqote::draw_target::DrawTarget', None))
+            mr = strip_all(a[3])
+            okr = poly(mv[2][1]) == W * H and is_call(mr, 'geom::intrect') and const_val(mr[2][0]) == 0 and const_val(mr[2][1]) == 0 and is_self_field(mr[2][2], 'width') and is_self_field(mr[2][3], 'height')
+            ctx.check(okr, R, key + '|mask rect matches mask', call_line(b, cbi), 'opacity mask is width*height bytes with mask_rect (0,0,width,height)', 'the opacity mask\'s size and the mask_rect passed to composite do not agree (width*height bytes, rect (0,0,width,height))')
+    ctx.check(okm, R, key + '|opacity mask', call_line(b, cbi), 'mask = layer.opacity as byte', 'the coverage mask of the layer composite does not carry layer.opacity')
+    ctx.check(lf(a[4], 'rect'), R, key + '|rect', call_line(b, cbi), 'rect = layer.rect', 'the layer is composited into %s, expected layer.rect' % fmt(b, a[4]))
+    ctx.check(lf(a[5], 'blend'), R, key + '|blend', call_line(b, cbi), 'blend = layer.blend', 'the layer is composited with blend %s, expected layer.blend' % fmt(b, a[5]))
+    ctx.check(const_val(a[6]) == 1.0, R, key + '|alpha', call_line(b, cbi), 'alpha = 1', 'the layer is composited with alpha %s, expected 1.0 (opacity is in the mask)' % fmt(b, a[6]))
+
+
+def r06_4(ctx):
+    """destination slice and bounds come from the same arm"""
+    R = 'R06.4'
+    b = ctx.body(DT + 'composite', R)
+    an = ctx.an(b)
+    key = 'draw_target::DrawTarget::composite'
+    cs = [(bi, ct) for bi, d, ct in calls_in(ctx, b) if d == DT + 'choose_blitter']
+    if not ctx.check(len(cs) == 1, R, key + '|choose_blitter', b.loc(), 'one choose_blitter call', 'expected one choose_blitter call'):
+        return
+    bi, ct = cs[0]
+    dest, db = strip_all(ct[2][5]), strip_all(ct[2][6])
+    # both are fields 0/1 of one phi of tuples
+    def tuple_src(t):
+        t = strip_all(t)
+        while t[0] == 'deref':
+            t = strip_all(t[1])
+        if t[0] == 'field' and t[3] == '(tuple)':
+            return t[1], t[2]
+        return None, None
+    s0, i0 = tuple_src(dest)
+    s1, i1 = tuple_src(db)
+    ok = s0 is not None and s0 == s1 and i0 == '0' and i1 == '1' and s0[0] == 'phi'
+    if not ctx.check(ok, R, key + '|dest,dest_bounds pair', call_line(b, bi), 'dest and dest_bounds are the two halves of one selection', 'dest and dest_bounds passed to choose_blitter are not the two components of one (slice, bounds) selection'):
+        return
+    arms = an.phi_terms(s0)
+    n = 0
+    for t in arms:
+        if t[0] != 'agg' or t[1] != 'tuple':
+            continue
+        n += 1
+        d0, d1 = strip_all(t[4][0][1]), strip_all(t[4][1][1])
+        from_layer0 = any(x[0] == 'field' and x[2] == 'buf' and (x[3] or '').endswith('Layer') for x in subterms(d0))
+        from_layer1 = d1[0] == 'field' and d1[2] == 'rect' and (d1[3] or '').endswith('Layer')
+        from_self0 = any(x[0] == 'field' and x[2] == 'buf' and (x[3] or '').endswith('DrawTarget') for x in subterms(d0))
+        from_self1 = is_call(d1, 'geom::intrect') and const_val(d1[2][0]) == 0 and const_val(d1[2][1]) == 0 and is_self_field(d1[2][2], 'width') and is_self_field(d1[2][3], 'height')
+        ok = (from_layer0 and from_layer1 and not from_self0) or (from_self0 and from_self1 and not from_layer0)
+        ctx.check(ok, R, key + '|arm %s' % ('layer' if from_layer0 else 'surface'), b.loc(), 'slice and bounds from the same destination',
+                  'a destination arm pairs slice %s with bounds %s: the layer buffer must go with the layer rect and the surface with (0,0,width,height)' % (fmt(b, d0), fmt(b, d1)))
+        if from_layer0:
+            lm = [x for x in subterms(d0) if is_call(x, '::last_mut')]
+            ctx.check(bool(lm) and all(is_self_field(strip_all(x[2][0]), 'layer_stack') for x in lm), R, key + '|innermost layer', b.loc(), 'layer = layer_stack.last_mut()', 'the layer drawn into is not layer_stack.last_mut() (the innermost open layer)')
+    ctx.floor(R, 'destination arms', n, 2)
+
+
+def r06_5(ctx):
+    """transform saved and restored around the identity overwrite in pop_layer and clear"""
+    R = 'R06.5'
+    for name in ('pop_layer', 'clear'):
+        b = ctx.body(DT + name, R)
+        an = ctx.an(b)
+        key = 'draw_target::DrawTarget::%s' % name
+        st = [(a, v, pt) for a, v, pt, kind in an.stores if kind == 'assign' and field_path(a) == (('param', 1), ['transform'])]
+        over = [(a, v, pt) for a, v, pt in st if is_call(v, 'identity')]
+        rest = [(a, v, pt) for a, v, pt in st if v == ('field', ('deref', ('param', 1)), 'transform', 'raqote::draw_target::DrawTarget', None)]
+        if not ctx.check(len(over) >= 1 and len(st) == len(over) + len(rest), R, key + '|stores', b.loc(), '%d overwrite(s), %d restore(s)' % (len(over), len(rest)),
+                         '%s stores to self.transform something that is neither the identity nor the saved transform' % name):
+            continue
+        for a, v, pt in over:
+            # every path from the overwrite to return passes a restore whose saved value was loaded before the overwrite
+            good = set()
+            for a2, v2, pt2 in rest:
+                stmt = b.blocks[pt2[0]]['st'][pt2[1]]
+                d0 = shared.origin_def(an, stmt['rv'], pt2[0], pt2[1])
+                if d0 is not None and (an.cfg.dominates(d0.bb, pt[0]) and (d0.bb != pt[0] or d0.idx < pt[1])):
+                    good.add(pt2[0])
+            ok, path = an.cfg.must_pass_through(pt[0], good - {pt[0]}) if good else (False, None)
+            ctx.check(ok, R, key + '|restore', b.loc(b.blocks[pt[0]]['st'][pt[1]]['sp']), 'transform restored on every path',
+                      '%s overwrites self.transform with the identity and does not restore the value saved before on every path to return' % name)
+    # device-space functions do not touch the stacks they should not
+    b = ctx.body(DT + 'pop_layer', R)
